@@ -398,8 +398,26 @@ fn t_ack_bindrequested() {
 }
 
 // ======================================================================== Push
+
+/// `CowBytes::into_static` under the precondition "the payload is owned" (`CowBytes::Static`), which
+/// is what the decoder hands to `process_frame` for every received message.  It is the original
+/// function on that variant; on the other variant it is a failed check, so the precondition is
+/// PROVED at every call site reached by the harness, not assumed.  Needed because CBMC does not fold
+/// the variant tag inside the Push arm's closure and would otherwise execute the copying branch with
+/// an unconstrained slice (symbolic-size allocation: no verdict in 40 min / 18 GB, DESIGN.md 9.8).
+#[cfg(kani)]
+pub(crate) fn into_static_owned<'a>(this: cow_bytes::CowBytes<'a>) -> Bytes
+where
+    'a: 'a, // makes the lifetime early-bound: Kani's stub check counts it like the impl's lifetime parameter
+{
+    match this {
+        cow_bytes::CowBytes::Static(b) => b,
+        cow_bytes::CowBytes::Temporary(_) => panic!("HARNESS-PRE: the payload handed to process_frame is owned (CowBytes::Static)"),
+    }
+}
 #[cfg_attr(kani, kani::proof)]
 #[cfg_attr(kani, kani::stub(catch_unwind, call_through))]
+#[cfg_attr(kani, kani::stub(cow_bytes::CowBytes::into_static, into_static_owned))]
 #[cfg_attr(kani, kani::unwind(6))]
 #[cfg_attr(verif_replay, test)]
 fn t_push_absent() {
@@ -419,6 +437,7 @@ fn t_push_absent() {
 /// to no other; nothing is sent
 #[cfg_attr(kani, kani::proof)]
 #[cfg_attr(kani, kani::stub(catch_unwind, call_through))]
+#[cfg_attr(kani, kani::stub(cow_bytes::CowBytes::into_static, into_static_owned))]
 #[cfg_attr(kani, kani::unwind(6))]
 #[cfg_attr(verif_replay, test)]
 fn t_push_established() {
@@ -446,6 +465,7 @@ fn t_push_established() {
 /// Push beyond the advertised window: that flow is aborted with one Reset, nothing else is touched
 #[cfg_attr(kani, kani::proof)]
 #[cfg_attr(kani, kani::stub(catch_unwind, call_through))]
+#[cfg_attr(kani, kani::stub(cow_bytes::CowBytes::into_static, into_static_owned))]
 #[cfg_attr(kani, kani::unwind(6))]
 #[cfg_attr(verif_replay, test)]
 fn t_push_overrun() {
@@ -468,6 +488,7 @@ fn t_push_overrun() {
 /// Push after the peer's own Finish, or on a flow that is not established: refused with Reset
 #[cfg_attr(kani, kani::proof)]
 #[cfg_attr(kani, kani::stub(catch_unwind, call_through))]
+#[cfg_attr(kani, kani::stub(cow_bytes::CowBytes::into_static, into_static_owned))]
 #[cfg_attr(kani, kani::unwind(6))]
 #[cfg_attr(verif_replay, test)]
 fn t_push_after_finish() {
@@ -489,6 +510,7 @@ fn t_push_after_finish() {
 
 #[cfg_attr(kani, kani::proof)]
 #[cfg_attr(kani, kani::stub(catch_unwind, call_through))]
+#[cfg_attr(kani, kani::stub(cow_bytes::CowBytes::into_static, into_static_owned))]
 #[cfg_attr(kani, kani::unwind(6))]
 #[cfg_attr(verif_replay, test)]
 fn t_push_requested() {
@@ -509,6 +531,7 @@ fn t_push_requested() {
 /// Push for a flow whose stream was dropped locally but not yet removed: ignored, no error
 #[cfg_attr(kani, kani::proof)]
 #[cfg_attr(kani, kani::stub(catch_unwind, call_through))]
+#[cfg_attr(kani, kani::stub(cow_bytes::CowBytes::into_static, into_static_owned))]
 #[cfg_attr(kani, kani::unwind(6))]
 #[cfg_attr(verif_replay, test)]
 fn t_push_stream_dropped() {
@@ -768,6 +791,7 @@ fn t_bind_ignored_in_teardown() {
 /// a datagram is delivered with exactly the frame's fields; it uses no flow state (id 0 allowed)
 #[cfg_attr(kani, kani::proof)]
 #[cfg_attr(kani, kani::stub(catch_unwind, call_through))]
+#[cfg_attr(kani, kani::stub(cow_bytes::CowBytes::into_static, into_static_owned))]
 #[cfg_attr(kani, kani::unwind(6))]
 #[cfg_attr(verif_replay, test)]
 fn t_datagram_delivered() {
@@ -800,6 +824,7 @@ fn t_datagram_delivered() {
 /// receive queue full: the datagram is dropped, the connection goes on, nothing else is touched
 #[cfg_attr(kani, kani::proof)]
 #[cfg_attr(kani, kani::stub(catch_unwind, call_through))]
+#[cfg_attr(kani, kani::stub(cow_bytes::CowBytes::into_static, into_static_owned))]
 #[cfg_attr(kani, kani::unwind(6))]
 #[cfg_attr(verif_replay, test)]
 fn t_datagram_queue_full() {
